@@ -55,6 +55,7 @@ package antlr
 // T-ANTLR: the text of a parse-tree node is a function of the node; strconv (trusted/strconv.spec)
 //@ extern pure func antlr_GetText(c Ref) string
 //@ extern pure func antlr_SIMPLENAME(c Ref) Ref
+//@ extern pure func antlr_RuleName(c Ref) Ref
 //@ extern pure func str_lower(a string) string
 //@ extern pure func antlr_RuleDescription(c Ref) Ref
 // unquoteString (a port of strconv.Unquote that also accepts single quotes) is outside the verified subset (byte-level append):
@@ -284,6 +285,10 @@ package antlr
 //@   ensures errorskept: errorsKept(thisListener)
 //@   ensures sticky: old(thisListener.StopParse) ==> thisListener.StopParse
 //@   ensures rules: RInv(thisListener) && (old(thisListener.Grl) != nil ==> thisListener.Grl != nil)
+// C17: the entry is filed under the name the text declares; a second rule of that name is an error, never a silent overwrite
+//@   ensures[C17] named: !old(thisListener.StopParse) && old(thisListener.Stack.length) > 0 && old(thisListener.Stack.top.value) != nil && typeof(old(thisListener.Stack.top.value)) == typeid(*ast.RuleEntry) && antlr_RuleName(ctx) != nil ==> as(old(thisListener.Stack.top.value), *ast.RuleEntry).RuleName == antlr_GetText(antlr_RuleName(ctx))
+//@   ensures[C17] filed: !old(thisListener.StopParse) && old(thisListener.Stack.length) > 0 && old(thisListener.Stack.top.value) != nil && typeof(old(thisListener.Stack.top.value)) == typeid(*ast.RuleEntry) && old(thisListener.Stack.length) >= 2 && old(thisListener.Stack.top.prev.value) == thisListener.Grl && thisListener.Grl != nil && typeof(thisListener.Grl) == typeid(*ast.Grl) && old(thisListener.Grl.RuleEntries) != nil ==> len(thisListener.ErrorCallback.Errors) > old(len(thisListener.ErrorCallback.Errors)) || (has(thisListener.Grl.RuleEntries, as(old(thisListener.Stack.top.value), *ast.RuleEntry).RuleName) && thisListener.Grl.RuleEntries[as(old(thisListener.Stack.top.value), *ast.RuleEntry).RuleName] == as(old(thisListener.Stack.top.value), *ast.RuleEntry))
+//@   ensures[C17] nooverwrite: !old(thisListener.StopParse) && old(thisListener.Stack.length) > 0 && old(thisListener.Stack.top.value) != nil && typeof(old(thisListener.Stack.top.value)) == typeid(*ast.RuleEntry) && old(thisListener.Stack.length) >= 2 && old(thisListener.Stack.top.prev.value) == thisListener.Grl && thisListener.Grl != nil && typeof(thisListener.Grl) == typeid(*ast.Grl) && old(thisListener.Grl.RuleEntries) != nil ==> forall k string :: old(has(thisListener.Grl.RuleEntries, k)) ==> has(thisListener.Grl.RuleEntries, k) && thisListener.Grl.RuleEntries[k] == old(thisListener.Grl.RuleEntries[k])
 //@ func (thisListener *GruleV3ParserListener) EnterSalience(ctx) ()
 //@   serves C17 C20
 //@   opt alloc=1
@@ -717,6 +722,7 @@ package antlr
 //@   ensures errorskept: errorsKept(thisListener)
 //@   ensures sticky: old(thisListener.StopParse) ==> thisListener.StopParse
 //@   ensures rules: RInv(thisListener) && (old(thisListener.Grl) != nil ==> thisListener.Grl != nil)
+//@   ensures[C17] saliencevalue: fnok_ParseInt(antlr_GetText(ctx), 0, 64) && old(thisListener.Stack.length) > 0 && old(thisListener.Stack.top.value) != nil && typeof(old(thisListener.Stack.top.value)) == typeid(*ast.Salience) && fn_ParseInt_0(antlr_GetText(ctx), 0, 64) >= -2147483648 && fn_ParseInt_0(antlr_GetText(ctx), 0, 64) <= 2147483647 ==> as(old(thisListener.Stack.top.value), *ast.Salience).SalienceValue == fn_ParseInt_0(antlr_GetText(ctx), 0, 64)
 //@   ensures[C05,C17] literalkind: fnok_ParseInt(antlr_GetText(ctx), 0, 64) && old(thisListener.Stack.length) > 0 && old(thisListener.Stack.top.value) != nil && typeof(old(thisListener.Stack.top.value)) == typeid(*ast.Constant) ==> as(old(thisListener.Stack.top.value), *ast.Constant).Value.kind == 6
 //@   ensures[C17,C20] literalerr: !fnok_ParseInt(antlr_GetText(ctx), 0, 64) ==> thisListener.StopParse && len(thisListener.ErrorCallback.Errors) > old(len(thisListener.ErrorCallback.Errors))
 //@ func (thisListener *GruleV3ParserListener) EnterFloatLiteral(ctx) ()
